@@ -34,6 +34,23 @@ Theorem C20_snapshot : forall w r m,
 Proof. exact env_snapshot. Qed.
 Print Assumptions C20_snapshot.
 
+(* a snapshot: once a runtime has required process, nothing but its own assignments and deletes changes what it sees - not
+   the host's later os.Setenv / os.Unsetenv, not other runtimes, not further requires *)
+Theorem C20_snapshot_stable : forall hs w w' r m,
+  rt_env w r = Some m ->
+  forallb (fun h => negb (touches r h) || match h with RtOp (Req _) => true | _ => false end) hs = true ->
+  hrun hs w = Some w' -> rt_env w' r = Some m.
+Proof. exact snapshot_stable. Qed.
+Print Assumptions C20_snapshot_stable.
+
+(* ... and it is taken when process is first required, not earlier: a runtime created before a host change and requiring
+   process after it sees the changed environment *)
+Theorem C20_snapshot_taken_at_require : forall w r k v m,
+  rt_env w r = None -> build_env (host_set k v (host w)) [] = Some m ->
+  exists w', hrun [HostSet k v; RtOp (Req r)] w = Some w' /\ rt_env w' r = Some m.
+Proof. exact snapshot_taken_at_require. Qed.
+Print Assumptions C20_snapshot_taken_at_require.
+
 (* non-vacuity: a concrete environment with an empty value, a value with two '=' and a runtime history *)
 Example C20_nonvacuous :
   let ps := [([65], []); ([66;67], [61;120;61]); ([68], [32;195;169])] in
